@@ -17,6 +17,7 @@ type c06gBlock struct {
 }
 
 type c06gen struct {
+	thorough bool
 	r      *rand.Rand
 	ops    []string
 	keys   []string
@@ -241,7 +242,7 @@ func (g *c06gen) lookup() {
 }
 
 func genC06(r *rand.Rand, tier string, idx int) []string {
-	g := &c06gen{r: r}
+	g := &c06gen{r: r, thorough: tier == "thorough"}
 	for i, n := 0, 1+r.Intn(3); i < n; i++ {
 		g.keys = append(g.keys, fmt.Sprintf("k%d", i+1))
 	}
@@ -285,6 +286,9 @@ func genC06Long(g *c06gen, variant int) []string {
 	r := g.r
 	k := g.keys[0]
 	n := []int{1999, 2000, 2001, 2002, 2003, 2100}[r.Intn(6)]
+	if g.thorough && r.Intn(4) == 0 {
+		n = []int{2500, 4100}[r.Intn(2)] // the link cache (capacity 2000) evicts hundreds / thousands of links
+	}
 	g.emit("blk r0 r0 -")
 	if variant != 2 {
 		g.emit("bset r0 %s %s", k, g.val())
